@@ -395,8 +395,13 @@ func (e *c10env) proj() obj {
 		lock = hx8(lh[:])
 	}
 	ch := n.VS.CommittedBlock().Hash()
-	return obj{"view": uint64(n.VS.View()), "hqc": hx8(h[:]), "hqcv": uint64(hqc.View()), "htc": uint64(n.VS.HighTC().View()),
+	p := obj{"view": uint64(n.VS.View()), "hqc": hx8(h[:]), "hqcv": uint64(hqc.View()), "htc": uint64(n.VS.HighTC().View()),
 		"lock": lock, "committed": hx8(ch[:]), "lv": uint64(n.Voter.VerifLastVotedView())}
+	if n.Kauri != nil {
+		// the aggregation round is replica state too: whose contributions were merged, who is in the partial aggregate
+		p["kauriSenders"], p["kauriAggIDs"] = fmt.Sprint(n.Kauri.VerifSenders()), fmt.Sprint(n.Kauri.VerifAgg())
+	}
+	return p
 }
 
 // apply sends one grammar case to the replica; returns the panic site ("" if none).
